@@ -1279,8 +1279,8 @@ class P(Prop):
         if out["t_after"] != b["t"]:
             k = [i for i in range(n) if out["t_after"][i] != b["t"][i]][0]
             return "timestamps changed: observation %d had the stamp %s before map-matching, has %s after" % (k, b["t"][k], out["t_after"][k])
-        if sorted(out["features"]) != sorted(set(b["features"] + ["obs_noise", "hmm_inference", "hmm_cost"])):
-            return "feature columns after map-matching: %s (before: %s)" % (out["features"], b["features"])
+        # (which feature columns exist after the call is not part of the statement — a version that writes a further column
+        # still satisfies it —: the names are compared with the model's in compare_net, not judged here)
         if len(out["inf"]) != n:
             return "hmm_inference has %d entries for %d observations" % (len(out["inf"]), n)
         for k in range(n):
